@@ -5,6 +5,7 @@ import (
 	"fmt"
 	"log/slog"
 	"net"
+	"slices"
 	"sync"
 	"time"
 
@@ -1024,7 +1025,9 @@ func (ps *peerScore) getIPs(p peer.ID) []string {
 		}
 	}
 
-	return res
+	// several connections from one address count once: the colocation penalty is per address
+	slices.Sort(res)
+	return slices.Compact(res)
 }
 
 // setIPs adds tracking for the new IPs in the list, and removes tracking from
